@@ -1290,7 +1290,8 @@ func TestVerifC03(t *testing.T) {
 	}
 	h.Close("one history per case: 2-7 groups in a 1-4 level tree (sibling maxima may oversubscribe the parent; min<=max), one node whose " +
 		"capacity changes, <=14 pods (requests with missing/zero/positive dims, 1-2 containers, 1/3 non-preemptible), 60/90 events: " +
-		"PreFilter, Reserve (only the pod just admitted, possibly after unrelated events), Unreserve, OnPodDelete, OnPodAdd, max/min raise, late group add, " +
+		"PreFilter, Reserve (only the pod just admitted, possibly after unrelated events), Unreserve, OnPodDelete, OnPodAdd, OnPodUpdate that flips only the " +
+		"preemptible label of a held (mostly assigned) pod followed by the attempt of a non-preemptible pod of that group, max/min raise, late group add, " +
 		"capacity change, meta updates (allow-lent flip / is-parent flip = tree reset, parent-label change = re-parenting of a leaf or an intermediate group " +
 		"with its subtree; webhook-legal shapes, in the closed-loop streams only moves that fit); switches (runtime, check-parent) = case index mod 4; " +
 		"streams: main, mask (a group's max lacks a dimension), tree (root<-1<-2<-3 guaranteed, more meta updates), " +
@@ -1455,6 +1456,80 @@ func c03Case(t *testing.T, h *vHarness, idx int, steps int) {
 		w.dump()
 	}
 
+	// flip: OnPodUpdate(old, new) where new = old with the label quota.scheduling.koordinator.sh/preemptible flipped
+	// ("false" set / removed) and a new resource version - nothing else.  Returns the pod's group (0 = no flip).
+	// Closed-loop streams: an ASSIGNED pod becomes non-preemptible only while non-preemptible used + its request stays
+	// within the min of its group (the flip books non-preemptible usage without an admission check; the statement's
+	// histories book usage by admitted reservations only) and the oracle's books are intact; the wild stream flips
+	// whatever the min says.  A flip towards non-preemptible drops the open admission (it was decided against books
+	// the flip has changed), so does a flip of the admitted pod itself.
+	flip := func() int {
+		var p *c03Pod
+		if r.Chance(1, 5) {
+			p = pick(func(p *c03Pod) bool { return p.inCache && !p.assigned })
+		} else {
+			p = pick(func(p *c03Pod) bool { return p.assigned })
+		}
+		if p == nil {
+			return 0
+		}
+		if p.assigned && !p.np && w.closedLoop {
+			if w.acctBroken || w.shifted() {
+				return 0
+			}
+			m, npu, q := w.reqM(p), w.usedO(p.quota, true), w.quotas[p.quota]
+			for d := 0; d < c03D; d++ {
+				if q.min.has[d] && npu[d]+m[d] > q.min.v[d] {
+					h.Tag("flip:to-non-preemptible:skipped-over-min")
+					return 0
+				}
+			}
+		}
+		old := p.obj
+		neu := old.DeepCopy()
+		w.rv++
+		neu.ResourceVersion = fmt.Sprint(w.rv)
+		if p.np {
+			delete(neu.Labels, extension.LabelPreemptible)
+			if r.Bool() {
+				neu.Labels[extension.LabelPreemptible] = "true"
+			}
+		} else {
+			neu.Labels[extension.LabelPreemptible] = "false"
+		}
+		h.Op("podflip %d", p.id)
+		if h.Guard(func() { gp.OnPodUpdate(old, neu) }) {
+			h.Obs("panic")
+			h.Fail("C03:panic", "OnPodUpdate panicked")
+			return 0
+		}
+		p.np = !p.np
+		p.obj = neu
+		h.Tag(fmt.Sprintf("flip:to-np=%v:assigned=%v", p.np, p.assigned))
+		if p.np || p.id == pending {
+			pending = 0
+		}
+		w.dump()
+		return p.quota
+	}
+	// npProbe: a NON-PREEMPTIBLE pod of group g that is not assigned - an existing one, or a new one
+	npProbe := func(g int) *c03Pod {
+		if p := pick(func(p *c03Pod) bool { return p.inCache && !p.assigned && p.np && p.quota == g }); p != nil && !r.Chance(1, 4) {
+			return p
+		}
+		if len(w.pods) >= 14 {
+			return nil
+		}
+		p := &c03Pod{id: nextPod, quota: g, np: true, req: c03GenReq(r)}
+		nextPod++
+		p.obj = c03MakePod(r, p)
+		w.pods[p.id] = p
+		h.Op("poddef %d %d %d %s", p.id, p.quota, vB(p.np), p.req.toks())
+		w.dump()
+		addPod(p)
+		return p
+	}
+
 	for step := 0; step < steps; step++ {
 		k := r.Intn(100)
 		switch {
@@ -1489,6 +1564,23 @@ func c03Case(t *testing.T, h *vHarness, idx int, steps int) {
 				rejected++
 			}
 		case k < 52:
+			if r.Chance(1, 4) {
+				// eighth round: an update of a held pod that flips ONLY the preemptible label (same requests, same group) -
+				// mostly of an ASSIGNED pod (its amount moves into / out of the non-preemptible used of its group and of
+				// every ancestor) -, then a non-preemptible pod of that group asks for admission
+				if g := flip(); g != 0 && r.Chance(2, 3) {
+					if p := npProbe(g); p != nil {
+						pending = 0
+						if w.attempt(p) {
+							admitted++
+							pending = p.id
+						} else {
+							rejected++
+						}
+					}
+				}
+				continue
+			}
 			if p := pick(func(p *c03Pod) bool { return p.assigned }); p != nil {
 				h.Op("unres %d", p.id)
 				gp.Unreserve(context.TODO(), framework.NewCycleState(), p.obj, "n1")
